@@ -90,7 +90,48 @@ impl PropCheck for C14 {
 /// Source-level conditions of the listed findings C14-F2 / C14-F3 (narrow, syntactic).
 /// F3: two sibling text nodes separated only by comments (comments are not printed, so they are read back as one text).
 /// F2: a binding that consists of one string literal only (printed as static text, pinned by the test lit_str).
+/// F3 by its root cause: the parsed template has two sibling text nodes next to each other (whatever separated them in
+/// the source — comments, a stray end tag — is not part of the AST, and the printer writes them back to back).
+pub fn has_adjacent_text_siblings(src: &str) -> bool {
+    use glass_easel_template_compiler::parse::tag::{ElementKind, Node};
+    fn walk(nodes: &[Node]) -> bool {
+        let mut prev_text = false;
+        for n in nodes {
+            match n {
+                Node::Text(_) => {
+                    if prev_text {
+                        return true;
+                    }
+                    prev_text = true;
+                }
+                Node::Element(e) => {
+                    prev_text = false;
+                    let hit = match &e.kind {
+                        ElementKind::Normal { children, .. } | ElementKind::Pure { children, .. } | ElementKind::For { children, .. } => walk(children),
+                        ElementKind::If { branches, else_branch, .. } => branches.iter().any(|(_, _, c)| walk(c)) || else_branch.as_ref().map(|(_, c)| walk(c)).unwrap_or(false),
+                        _ => false,
+                    };
+                    if hit {
+                        return true;
+                    }
+                }
+                // comments and unknown meta tags are not printed: they do not separate
+                _ => {}
+            }
+        }
+        false
+    }
+    std::panic::catch_unwind(|| {
+        let (t, _ps) = glass_easel_template_compiler::parse::parse("p", src);
+        walk(&t.content) || t.globals.sub_templates.iter().any(|d| walk(&d.content))
+    })
+    .unwrap_or(false)
+}
+
 pub fn file_tag(src0: &str) -> Option<String> {
+    if has_adjacent_text_siblings(src0) {
+        return Some("text-comment-text-printed-adjacent".to_string());
+    }
     // entity spellings of `{` count as `{` (same length is not needed: only patterns are searched)
     let src_owned = src0.replace("&#x7b;", "{").replace("&#x7B;", "{").replace("&#123;", "{").replace("&lbrace;", "{").replace("&lcub;", "{");
     let src = src_owned.as_str();
@@ -300,7 +341,10 @@ pub fn eval_case(w: &mut Worker, c: &Case) -> Result<Outcome, String> {
 pub fn run(tier: Tier, seed: u64, findings: &Findings) -> i32 {
     let started = Instant::now();
     let cfg = RunCfg { prop: "C14", tier, seed };
-    let wc = gen::wxml::WxmlCfg::new(tier.pick(2, 3), tier.pick(2, 3));
+    let mut wc = gen::wxml::WxmlCfg::new(tier.pick(2, 3), tier.pick(2, 3));
+    // slot value scopes: dynamic-slot components of the stub DOM and `slot:` references on their children
+    wc.slot_refs = true;
+    wc.dyn_tags = true;
     let check = C14 { cfg: wc };
     let mut report = engine::Report::default();
     report.merge(super::run_regress(&check, &cfg, findings));
